@@ -1,3 +1,4 @@
+import Cctp.Spec.Toy
 import Cctp.Props.C08
 import Cctp.Props.C04
 /-
@@ -104,5 +105,11 @@ theorem panic_rolls_back_too (ext : Ext) (cfg : Cfg) (w : World) (fl : List Bool
     (hp : handle ext cfg w.store { w.ledger with faults := fl } m = .error .panic) :
     (deliver ext cfg w fl m).1.store = w.store ∧ (deliver ext cfg w fl m).2.fail = some .panic := by
   unfold deliver; rw [hp]; exact ⟨rfl, rfl⟩
+
+/-! non-vacuity: the same deposit succeeds with a healthy bank and fails when the transfer, or the burn, fails -/
+example : Toy.isOk (handle Toy.ext Toy.cfg Toy.st Toy.led Toy.deposit) = true ∧
+    Toy.isOk (handle Toy.ext Toy.cfg Toy.st { Toy.led with faults := [true] } Toy.deposit) = false ∧
+    Toy.isOk (handle Toy.ext Toy.cfg Toy.st { Toy.led with faults := [false, true] } Toy.deposit) = false ∧
+    Toy.isOk (handle Toy.ext Toy.cfg Toy.st { Toy.led with faults := [true] } Toy.receive) = false := by decide +kernel
 
 end Cctp.C14
